@@ -23,11 +23,18 @@ El(n, ty, min, max) == [k |-> "el", n |-> n, ty |-> ty, min |-> min, max |-> max
 SeqP(min, max, ps) == [k |-> "seq", min |-> min, max |-> max, ps |-> ps]
 
 \* farfwd: the imported file refers to ITS OWN Thing (base= and ref=) ahead of the declarations
-Space == {[ptype |-> a, pref |-> b, pbase |-> d, order |-> o, locals |-> lo, bname |-> bn, farfwd |-> ff] :
+\* rec: the near Thing is recursive through a reference - it contains ref="t:ThingKid", a global element (declared last)
+\* whose anonymous type extends Thing; a referring type that stands first then reaches Thing while Thing is being converted
+Space == {[ptype |-> a, pref |-> b, pbase |-> d, order |-> o, locals |-> lo, bname |-> bn, farfwd |-> ff, rec |-> r] :
             a \in {"t", "o"}, b \in {"t", "o", "none"}, d \in {"t", "o", "none"},
-            o \in {"users_first", "users_last"}, lo \in {"none", "first", "last"}, bn \in BOOLEAN, ff \in BOOLEAN}
+            o \in {"users_first", "users_last"}, lo \in {"none", "first", "last"}, bn \in BOOLEAN, ff \in BOOLEAN, r \in BOOLEAN}
 
 ThingType(mark) == [k |-> "complex", n |-> "Thing", base |-> None, content |-> << SeqP(1, "1", << El(mark, B("string"), 1, "1") >>) >>, attrs |-> <<>>]
+RecThing == [k |-> "complex", n |-> "Thing", base |-> None,
+             content |-> << SeqP(1, "1", << El("nearMark", B("string"), 1, "1"), [k |-> "ref", ref |-> [p |-> "t", n |-> "ThingKid"], min |-> 0, max |-> "unb"] >>) >>,
+             attrs |-> <<>>]
+ThingKid == [k |-> "element", n |-> "ThingKid",
+             inline |-> [base |-> T("t", "Thing"), content |-> << SeqP(1, "1", << El("kidMark", B("int"), 1, "1") >>) >>, attrs |-> <<>>]]
 ThingElem(p) == [k |-> "element", n |-> "Thing", ty |-> T(p, "Thing")]
 DateType == [k |-> "complex", n |-> "date", base |-> None, content |-> << SeqP(1, "1", << El("dateMark", B("int"), 1, "1") >>) >>, attrs |-> <<>>]
 LocalHolder == [k |-> "complex", n |-> "LocalHolder", base |-> None,
@@ -42,7 +49,8 @@ UserType(x) == [k |-> "complex", n |-> "UserType", base |-> None,
 DerivedUser(x) == [k |-> "complex", n |-> "DerivedUser", base |-> T(x.pbase, "Thing"),
                    content |-> << SeqP(1, "1", << El("ownMark", B("string"), 1, "1") >>) >>, attrs |-> <<>>]
 Users(x) == <<UserType(x)>> \o (IF x.pbase = "none" THEN <<>> ELSE <<DerivedUser(x)>>)
-Decls(x) == <<ThingElem("t"), ThingType("nearMark")>> \o (IF x.bname THEN <<DateType>> ELSE <<>>)
+Decls(x) == <<ThingElem("t"), IF x.rec THEN RecThing ELSE ThingType("nearMark")>> \o (IF x.bname THEN <<DateType>> ELSE <<>>)
+            \o (IF x.rec THEN <<ThingKid>> ELSE <<>>)
 
 File1(x) == [name |-> "f1.xsd", kind |-> "xsd", tns |-> "Unear", xmlns |-> << <<"t", "Unear">>, <<"o", "Ufar">> >>,
              items |-> << [k |-> "import", ns |-> "Ufar", loc |-> "f2.xsd"] >>
@@ -76,7 +84,8 @@ Distinguishes ==
 Emit == PrintT(<<"CASE", ToJson([prop |-> "C09", drv |-> "gen", start |-> "f1.xsd", files |-> SetOf(c).files, shape |-> c])>>)
 
 N(x, p, s) == [xml |-> x, pascal |-> p, snake |-> s]
-Vocab == [names |-> [FarUser |-> N("FarUser", "FarUser", "far_user"), Thing |-> N("Thing", "Thing", "thing"), date |-> N("date", "Date", "date"), LocalHolder |-> N("LocalHolder", "LocalHolder", "local_holder"),
+Vocab == [names |-> [ThingKid |-> N("ThingKid", "ThingKid", "thing_kid"), kidMark |-> N("kidMark", "KidMark", "kid_mark"),
+                     FarUser |-> N("FarUser", "FarUser", "far_user"), Thing |-> N("Thing", "Thing", "thing"), date |-> N("date", "Date", "date"), LocalHolder |-> N("LocalHolder", "LocalHolder", "local_holder"),
                      UserType |-> N("UserType", "UserType", "user_type"), DerivedUser |-> N("DerivedUser", "DerivedUser", "derived_user"),
                      viaType |-> N("viaType", "ViaType", "via_type"), viaBuiltinName |-> N("viaBuiltinName", "ViaBuiltinName", "via_builtin_name"),
                      ownMark |-> N("ownMark", "OwnMark", "own_mark"), nearMark |-> N("nearMark", "NearMark", "near_mark"),
